@@ -16,10 +16,10 @@ BIG = 16384  # 4 samples of the 4096-byte type
 # label -> property
 LABELS = {
     "C08": {"panic", "err", "prefix", "final_out", "unsettled", "constructor"},
-    "C09": {"window", "leak", "spin", "probe", "misdirected", "close_verdict", "verdict_side"},
+    "C09": {"window", "leak", "spin", "probe", "misdirected", "satisfied_wait", "close_verdict", "verdict_side"},
     "C12": {"tags_ref", "tagmap", "tag_value"},
     "C10": {"fn_out", "fn_tags", "panic", "err", "prefix", "final_out", "unsettled", "constructor"},
-    "C19": {"synclaw", "eof", "fn_out", "fn_tags", "panic", "prefix", "final_out", "window", "leak", "spin", "probe", "misdirected", "close_verdict", "tags_ref", "tagmap", "unsettled", "constructor"},
+    "C19": {"synclaw", "eof", "fn_out", "fn_tags", "panic", "prefix", "final_out", "window", "leak", "spin", "probe", "misdirected", "satisfied_wait", "close_verdict", "tags_ref", "tagmap", "unsettled", "constructor"},
 }
 
 ID = {"kind": "identity", "arg": 0}
